@@ -60,6 +60,7 @@ fn completed_once(cx: &Ctx, prop: &'static str, sub: &SubInfo, out: &mut Vec<Fin
 /// a panic anywhere in the scenario defeats the operator's contract (the models otherwise judge only the prefix)
 fn no_panic(cx: &Ctx, prop: &'static str, out: &mut Vec<Finding>) {
     if let Some((at, msg)) = cx.h.log.iter().enumerate().find_map(|(i, e)| match e {
+        Ev::Panic { message, .. } if message.starts_with("harness:") => None,
         Ev::Panic { message, location } => Some((i, format!("{message} at {location}"))),
         _ => None,
     }) {
